@@ -38,12 +38,16 @@ Env == /\ More /\ ~skip /\ l' = l + 1 /\ UNCHANGED <<run, bad, skip, alive, ncyc
 ObsCount(shape, n) == CASE shape = "BOOL" -> n % 2 [] shape = "ENUM" -> n % 3 [] OTHER -> n
 Shape(n) == (CHOOSE c \in {cfg.counters[k] : k \in DOMAIN cfg.counters} : c.name = n).shape
 IsExecCounter(n) == \E j \in PIdx : n = "cnt" \o ToString(j - 1)
+\* the member counter of a task-associated FB instance: the number of executions of the instance
+\* since the last (re)start - instance state persists between the activations of its task
+IsFbCounter(n) == \E k \in DOMAIN cfg.counters : cfg.counters[k].name = n /\ cfg.counters[k].fb > 0
 \* counters: per-program execution counters belong to the task model (C06); the others carry
 \* the restart semantics (C09); the value reached through a VAR_ACCESS path must be the
 \* program variable's; the stored tag must be the declared type (C03)
 CtrWhy(x) ==
      (IF \A n \in DOMAIN x.ctr : IsExecCounter(n) => E.ctr[n] = x.ctr[n] THEN {} ELSE {"program-counters"})
-  \cup (IF \A n \in DOMAIN x.ctr : ~IsExecCounter(n) => E.ctr[n] = ObsCount(Shape(n), x.ctr[n]) THEN {} ELSE {"retain-variables"})
+  \cup (IF \A n \in DOMAIN x.ctr : IsFbCounter(n) => E.ctr[n] = x.ctr[n] THEN {} ELSE {"fb-instance-state"})
+  \cup (IF \A n \in DOMAIN x.ctr : ~IsExecCounter(n) /\ ~IsFbCounter(n) => E.ctr[n] = ObsCount(Shape(n), x.ctr[n]) THEN {} ELSE {"retain-variables"})
   \cup (IF \A n \in DOMAIN E.acc : E.acc[n] = x.ctr[n] THEN {} ELSE {"access-path"})
   \cup (IF \A n \in DOMAIN x.ctr : E.ctags[n] = Shape(n) THEN {} ELSE {"type-tag"})
 OverPinned(t) == ~(HasSingle(t) /\ cfg.tasks[t].interval > 0)
